@@ -26,6 +26,10 @@ def run(tier, replay=None):
                      "(scanning server and read-mode instances)",
                      "the reference is the scanning server (no metadata root) of the same VoD root, as the property defines it; the "
                      "$Time$ values of audio requests are read from its MPD (inputs only)",
+                     "(c) far from the epoch: video segment k*N+j of a generated admissible asset is served at k*L + start(j) exactly, L, N, "
+                     "start(j) by construction; within one window all true times are < 2^31 ticks apart, a larger spread counts as not contiguous",
+                     "metadata damage includes well-formed JSON with one field (every top-level field, every field of the first/last "
+                     "segment entry, whole entries) replaced by a value of another type / negative / out of range / fractional / null / nested",
                      "admissibility ground truth is by construction of the generated layouts (loop ticks * 1000 mod timescale; "
                      "two video representations of 4 s and 3 s)"]
     c.trusted = ["harness/drive/c15 recorder (request pool, per-class digests, file damage)", "harness/assetgen", "TLC"]
@@ -43,23 +47,24 @@ def run(tier, replay=None):
         for b in beh:
             f.write(json.dumps(b) + "\n")
     drive = vlib.build_harness(cmd="c15")
-    n, workers = (250, 6) if quick else (0, 8)
+    n, workers = (200, 8) if quick else (0, 8)
     st = vlib.run_driver(drive, ["-out", c.work / "c15", "-gen", genf, "-work", c.work / "run", "-seed", c.seed,
-                                 "-n", n, "-workers", workers], timeout=3000)
+                                 "-n", n, "-workers", workers] + ([] if quick else ["-thorough"]), timeout=3000)
     # vacuity guards (machinery, never a verdict)
     if not st.get("probe_cache_is_read"):
         raise MachineryError("vacuity: the metadata files are not read by the server under test")
     for k in ("scan", "absent"):
         if st["outcomes"].get(k, 0) == 0:
             raise MachineryError(f"vacuity: no asset outcome '{k}' observed: {st['outcomes']}")
-    if st["cache_read_instances"] == 0 or st["full_contig_windows"] == 0 or st["full_declared_timelines"] == 0:
+    if st["cache_read_instances"] == 0 or st["full_contig_windows"] == 0 or st["full_declared_timelines"] == 0 \
+            or st["far_exact_checks"] == 0 or st["type_damage_instances"] == 0:
         raise MachineryError(f"vacuity: no read-mode instance / no complete contiguity window: {st}")
     traces = st["traces"]
 
     def one(tp):
         return tp, c.validate_trace("RepCache_Trace", tp, timeout=3000, heap="4g")
 
-    seen = {"ref": 0, "hdr": 0, "damage": 0, "remove": 0, "start": 0, "asset": 0, "tl": 0, "mtl": 0, "files": 0}
+    seen = {"ref": 0, "hdr": 0, "damage": 0, "remove": 0, "start": 0, "asset": 0, "tl": 0, "mtl": 0, "far": 0, "files": 0}
     idem_compared = 0
     with ThreadPoolExecutor(max_workers=len(traces)) as ex:
         results = list(ex.map(one, traces))
@@ -67,15 +72,24 @@ def run(tier, replay=None):
         events = vlib.read_ndjson(tp)
         hdr_at, cur = {}, None
         wvalid = False
+        variants, var_at = {}, {}      # rep -> variant of its current damage (for classifying failures by input class)
         for i, e in enumerate(events, 1):
             seen[e["ev"]] = seen.get(e["ev"], 0) + 1
             if e["ev"] == "hdr":
-                cur, wvalid = e, False
+                cur, wvalid, variants = e, False, {}
             elif e["ev"] in ("damage", "remove"):
                 wvalid = False
+                variants = dict(variants)
+                if e["ev"] == "damage":
+                    variants[e["rep"]] = e.get("variant", "")
+                else:
+                    variants.pop(e["rep"], None)
+            elif e["ev"] == "start" and e["write"] and (cur or {}).get("root") != "disabled":
+                variants = {}
             elif e["ev"] == "files" and e["write"]:
                 idem_compared += 1 if wvalid else 0
                 wvalid = True
+            var_at[i] = variants
             hdr_at[i] = cur
         for f in vlib.bad_to_failures(r, events):
             h = hdr_at.get(f["line"]) or {}
@@ -90,6 +104,12 @@ def run(tier, replay=None):
                 for k in ("asset", "outcome", "root", "write", "adm", "corrupt", "kinds", "rep", "kind", "first_bad"):
                     if k in d:
                         f[k] = d[k]
+            # the damage variants of the failing asset's files; wellformed_accepted: a well-formed JSON document whose
+            # damaged value is null, an entry of unknown shape or a negative signed timescale (encoding/json accepts these without an error)
+            vs = sorted(v for r_, v in (var_at.get(f["line"]) or {}).items() if r_.split("/")[0] == f.get("asset"))
+            f["variants"] = vs
+            f["wellformed_accepted"] = any(v.startswith("typed:") and (v.endswith("=null") or v.endswith('=[{"a":[1]}]')
+                                                                       or v in ("typed:mediaTimescale=-3", "typed:mpdTimescale=-3")) for v in vs)
             f.pop("cls", None)
             c.add_failure(f)
         c.events += lines
@@ -105,6 +125,7 @@ def run(tier, replay=None):
     c.extra.update({"replayed_tlc_behaviours": st["scenarios"], "tlc_behaviours_available": st["behaviours_available"],
                     "server_instances": st["instances"], "read_mode_instances_with_root": st["cache_read_instances"],
                     "requests": st["requests"], "pool_per_instance": st["pool"], "asset_outcomes": st["outcomes"],
-                    "complete_contiguity_windows": st["full_contig_windows"], "complete_declared_timelines": st["full_declared_timelines"], "idem_comparisons": idem_compared,
+                    "complete_contiguity_windows": st["full_contig_windows"], "complete_declared_timelines": st["full_declared_timelines"], "far_exact_checks": st["far_exact_checks"],
+                    "type_damage_instances": st["type_damage_instances"], "type_damage_fields": st["type_damage_fields"], "idem_comparisons": idem_compared,
                     "events_by_type": seen, "damage_on_unusable_file": st.get("damage_on_unusable_file", 0), "assets": st["assets"], "driver_wall_s": st["_wall_s"]})
     return c.finish()
